@@ -49,7 +49,7 @@ BOUNDS = {
 }
 ASSUMPTIONS = [
     "reference ref/uslp.py transcribes CCSDS 732.1-B-2 4.1.2 / 4.1.4.2 / annex D; bound to the octets asserted by tests/test_uslp.py in selftest/st_ref_misc.py",
-    "truncated frames: truncated header + one-octet TFDF header + TFDZ, variable construction rules only, no insert zone / OCF / FECF (annex D)",
+    "truncated frames: truncated header + one-octet TFDF header + TFDZ, variable construction rules only, no OCF (annex D); insert zone and FECF, which the library's managed parameters offer for truncated frames too, are exercised on a reduced product with the same layout as for the other frames",
     "mismatching managed parameters that must be refused are the detectable ones: frame kind flipped, fixed length != frame, truncated frame declared fixed, "
     "variable properties for a fixed call, insert-zone / FECF sizes leaving no data field or less than its header (3 octets for the fixed rules), truncated length beyond the input; a wrong size that still fits is undetectable and not demanded",
     "a raw frame shorter than its own length field (no managed parameter involved) is C10's prefix clause, not judged here",
@@ -585,6 +585,19 @@ def run_shard(item):
                 check_frame(rec, r, "trunc", keep=keep)
                 n += 1
         rec.count("frames_trunc", n)
+        # the library also offers insert zone and FECF for truncated frames (managed parameters has_insert_zone / has_fecf
+        # with truncated_frame_len): layout header, insert zone, data field, FECF as for the other frames
+        m = 0
+        for upid in (0, 31):
+            for ln in (0, 1, 5, 16):
+                for iz in UU.IZS:
+                    for fecf in UU.FECFS:
+                        if iz is None and fecf is None:
+                            continue
+                        r = UU.frame_recipe(TRUNC_HDRS[m % 4], rule, upid, None, UU.tfdz_pattern(ln, m), iz, None, fecf)
+                        check_frame(rec, r, "trunc", keep=keep)
+                        m += 1
+        rec.count("frames_trunc_with_insert_zone_or_fecf", m)
     elif kind == "pointer_sweep":
         rule = item["rule"]
         lo, hi = 65536 * item["part"] // item["parts"], 65536 * (item["part"] + 1) // item["parts"]
